@@ -668,7 +668,24 @@ func (lc *lowerCtx) lowerEffects(fc *FuncContract, body *strings.Builder, checkP
 					p.static = f.FullName()
 					sig = f.Type().(*types.Signature)
 				} else {
-					return fmt.Errorf("pattern %q: unknown function %s", p.src, p.method)
+					// a parameter or variable of function type: matched by the identity of the function value
+					vex, _ := parser.ParseExpr(p.method)
+					vt, _, verr := checkPos(vex)
+					fs, isSig := (types.Type)(nil), false
+					if verr == nil && vt != nil {
+						fs, isSig = vt.Underlying().(*types.Signature)
+					}
+					if !isSig {
+						return fmt.Errorf("pattern %q: unknown function %s", p.src, p.method)
+					}
+					p.dynamic = true
+					sig = fs.(*types.Signature)
+					p.recvFunc = fmt.Sprintf("verif_effrecv_%d_%d_%s", k, pi, base)
+					ps, err := lc.paramList(lc.usedNames(vex), "requires", nil)
+					if err != nil {
+						return err
+					}
+					fmt.Fprintf(body, "func %s(%s) any {\n\treturn %s\n}\n\n", p.recvFunc, ps, p.method)
 				}
 			}
 			if p.recvCap != "" {
@@ -1045,6 +1062,15 @@ func (e *Engine) effectObligations(sp *ssa.Package, fc *FuncContract, fn *ssa.Fu
 						}
 						if _, isParam := ep(name); isParam {
 							continue
+						}
+						isResult := false
+						for _, rn := range resultNames(fn.Signature) {
+							if rn == name {
+								isResult = true
+							}
+						}
+						if isResult {
+							continue // `err`, `result`: the function's results, not a local that happens to share the name
 						}
 						if v, ok := curEv.St.cells[c]; ok && v != nil {
 							withLocals[name] = v
